@@ -996,7 +996,7 @@ impl Hist {
                         (a as i64, bb as i64)
                     }
                 };
-                format!("H xopen {} {} {} {}", r.pick(&[1u8, 2, 3, 4]), lo, hi, b(r.chance(1, 2)))
+                format!("H xopen {} {} {} {} {}", r.pick(&[1u8, 2, 3, 4]), lo, hi, b(r.chance(1, 2)), b(r.chance(1, 4)))
             }
             8..=27 => {
                 let l = match r.below(6) {
